@@ -1,4 +1,465 @@
+(* C05/Proofs.v — lemmas about the row reader (C05/Model.v).  The theorems exported for the property are
+   in C05/Props.v; the amount-value theorem is in C05/AmountProofs.v. *)
 From Coq Require Import String Ascii.
 From Coq Require Import List Bool ZArith NArith Arith Lia.
 From Tally Require Import Gen.C05Amount C05.Model.
 Import ListNotations.
+Open Scope N_scope.
+
+(* ------------------------------------------------------------------------------------------------ basics *)
+Lemma bs_eqb_refl (a : bs) : bs_eqb a a = true.
+Proof. induction a as [|x r IH]; cbn; [reflexivity|]. now rewrite N.eqb_refl, IH. Qed.
+
+Lemma bs_eqb_eq (a b : bs) : bs_eqb a b = true <-> a = b.
+Proof.
+  split; [|intros ->; apply bs_eqb_refl].
+  revert b; induction a as [|x r IH]; intros [|y s]; cbn; try discriminate; [reflexivity|].
+  rewrite andb_true_iff, N.eqb_eq. intros [-> H]. f_equal. now apply IH.
+Qed.
+
+Lemma is_nil_true {A} (l : list A) : is_nil l = true <-> l = [].
+Proof. destruct l; cbn; split; congruence. Qed.
+Lemma is_nil_false {A} (l : list A) : is_nil l = false <-> l <> [].
+Proof. destruct l; cbn; split; congruence. Qed.
+
+Definition all_some (row : cells) : Prop := Forall (fun c => c <> None) row.
+
+(* the stripped text of a cell; '' when the cell is missing or is an unmatched group *)
+Definition cell (row : cells) (i : nat) : bs :=
+  match nth_error row i with Some (Some s) => strip s | _ => [] end.
+Definition caps_of (row : cells) (l : list (bs * nat)) : list (bs * bs) :=
+  map (fun nc => (fst nc, cell row (snd nc))) l.
+
+(* ---- inversion: what a successful read returned *)
+Lemma get_inl row i s : get row i = inl s -> s = cell row i /\ (i < length row)%nat.
+Proof.
+  unfold get, cell. destruct (nth_error row i) as [[x|]|] eqn:E; try discriminate.
+  intros [= <-]. split; [reflexivity|]. apply nth_error_Some. congruence.
+Qed.
+Lemma get_or_empty_inl row i s : get_or_empty row i = inl s -> s = cell row i.
+Proof. unfold get_or_empty, cell. destruct (nth_error row i) as [[x|]|]; try discriminate; now intros [= <-]. Qed.
+Lemma captures_inl row l cs : captures row l = inl cs -> cs = caps_of row l.
+Proof.
+  revert cs; induction l as [|[n c] r IH]; cbn; intros cs.
+  - now intros [= <-].
+  - destruct (get_or_empty row c) as [v|] eqn:E; cbn; [|discriminate].
+    destruct (captures row r) as [vs|] eqn:E2; cbn; [|discriminate].
+    intros [= <-]. apply get_or_empty_inl in E. now rewrite (IH vs eq_refl), E.
+Qed.
+
+(* ---- totality: a row whose cells are all present never crashes *)
+Lemma get_total row i : all_some row -> (i < length row)%nat -> get row i = inl (cell row i).
+Proof.
+  intros Hs Hi. unfold get, cell. destruct (nth_error row i) as [[x|]|] eqn:E; [reflexivity| |].
+  - exfalso. apply nth_error_In in E. unfold all_some in Hs. rewrite Forall_forall in Hs. now apply (Hs None).
+  - apply nth_error_None in E. lia.
+Qed.
+Lemma get_or_empty_total row i : all_some row -> get_or_empty row i = inl (cell row i).
+Proof.
+  intros Hs. unfold get_or_empty, cell. destruct (nth_error row i) as [[x|]|] eqn:E; try reflexivity.
+  exfalso. apply nth_error_In in E. unfold all_some in Hs. rewrite Forall_forall in Hs. now apply (Hs None).
+Qed.
+Lemma captures_total row l : all_some row -> captures row l = inl (caps_of row l).
+Proof.
+  intros Hs. induction l as [|[n c] r IH]; cbn; [reflexivity|].
+  now rewrite (get_or_empty_total _ _ Hs), IH.
+Qed.
+
+(* templates refer to captured names only (what parse_format_string enforces) *)
+Fixpoint refs (t : list piece) : list bs :=
+  match t with [] => [] | Lit _ :: r => refs r | Ref n :: r => n :: refs r end.
+Definition memb (k : bs) (l : list bs) : bool := existsb (bs_eqb k) l.
+Definition spec_wfb (sp : spec) : bool :=
+  match desc sp with
+  | DescCol _ _ => true
+  | Template caps t => forallb (fun n => memb n (map fst caps)) (refs t)
+  end.
+
+Lemma assoc_some k (l : list (bs * bs)) : memb k (map fst l) = true -> exists v, assoc k l = Some v.
+Proof.
+  induction l as [|[k' v] r IH]; cbn; [discriminate|].
+  destruct (bs_eqb k k'); cbn; [now exists v|]. exact IH.
+Qed.
+Lemma fill_total t cs : forallb (fun n => memb n (map fst cs)) (refs t) = true -> exists d, fill t cs = inl d.
+Proof.
+  induction t as [|[s|n] r IH]; cbn; intros H.
+  - now exists [].
+  - destruct (IH H) as [d ->]. cbn. now eexists.
+  - apply andb_true_iff in H as [H1 H2]. destruct (assoc_some _ _ H1) as [v ->].
+    destruct (IH H2) as [d ->]. cbn. now eexists.
+Qed.
+Lemma caps_of_names row l : map fst (caps_of row l) = map fst l.
+Proof. unfold caps_of. rewrite map_map. reflexivity. Qed.
+
+(* ---- the column guard covers every column that is read *)
+Lemma le_fold_max (l : list nat) c : In c l -> (c <= fold_right Nat.max O l)%nat.
+Proof. induction l as [|x r IH]; cbn; [tauto|]. intros [->|H]; [lia|]. specialize (IH H). lia. Qed.
+Lemma required_le_max sp c : In c (required_cols sp) -> (c <= max_col sp)%nat.
+Proof. apply le_fold_max. Qed.
+Lemma date_col_req sp : In (date_col sp) (required_cols sp).
+Proof. unfold required_cols. cbn. tauto. Qed.
+Lemma amount_col_req sp : In (amount_col sp) (required_cols sp).
+Proof. unfold required_cols. cbn. tauto. Qed.
+Lemma desc_col_req sp c ex : desc sp = DescCol c ex -> In c (required_cols sp).
+Proof. intros H. unfold required_cols. rewrite H. cbn. tauto. Qed.
+Lemma loc_col_req sp c : loc_col sp = Some c -> In c (required_cols sp).
+Proof. intros H. unfold required_cols. rewrite H. cbn. right. right. apply in_or_app. right. cbn. tauto. Qed.
+
+(* ---- float sign modes do not change zero-ness / finiteness *)
+Lemma zero_fabs a : fl_is_zero (fabs a) = fl_is_zero a.
+Proof. destruct a as [m e| |]; cbn; try reflexivity. destruct (Z.eqb_spec m 0), (Z.eqb_spec (Z.abs m) 0); try reflexivity; lia. Qed.
+Lemma zero_fneg a : fl_is_zero (fneg a) = fl_is_zero a.
+Proof. destruct a as [m e| |]; cbn; try reflexivity. destruct (Z.eqb_spec m 0), (Z.eqb_spec (- m) 0); try reflexivity; lia. Qed.
+Lemma fin_fabs a : fl_is_fin (fabs a) = fl_is_fin a. Proof. now destruct a. Qed.
+Lemma fin_fneg a : fl_is_fin (fneg a) = fl_is_fin a. Proof. now destruct a. Qed.
+Lemma zero_mode sp a : fl_is_zero (apply_mode sp a) = fl_is_zero a.
+Proof. unfold apply_mode. destruct (absolute sp); [apply zero_fabs|]. destruct (negate sp); [apply zero_fneg|reflexivity]. Qed.
+Lemma fin_mode sp a : fl_is_fin (apply_mode sp a) = fl_is_fin a.
+Proof. unfold apply_mode. destruct (absolute sp); [apply fin_fabs|]. destruct (negate sp); [apply fin_fneg|reflexivity]. Qed.
+
+Lemma parse_amount_nil dec : parse_amount dec [] = None.
+Proof. unfold parse_amount. cbn. destruct (bs_eqb dec european_separator); vm_compute; reflexivity. Qed.
+
+Section Rows.
+  Variable strptime : bs -> bs -> option bs.
+  Notation row_to_txn := (row_to_txn strptime).
+  Notation run_rows := (run_rows strptime).
+  Notation parse := (parse strptime).
+
+  (* ------------------------------------------------------------------------------------ the pure reading of a row *)
+  Definition description_of (sp : spec) (row : cells) : M bs :=
+    match desc sp with
+    | DescCol c _ => inl (cell row c)
+    | Template caps t => fill t (caps_of row caps)
+    end.
+  Definition fields_of (sp : spec) (row : cells) : list (bs * bs) :=
+    match desc sp with DescCol _ ex => caps_of row ex | Template caps _ => caps_of row caps end.
+  Definition loc_text (sp : spec) (row : cells) : bs :=
+    match loc_col sp with Some c => cell row c | None => [] end.
+
+  (* what row_to_txn computes once every read has succeeded *)
+  Definition row_pure (v : variant) (sp : spec) (row : cells) (de : bs) : res :=
+    let d0 := cell row (date_col sp) in
+    let a0 := cell row (amount_col sp) in
+    if is_nil d0 || is_nil de || is_nil a0 then Skip Blank else
+    match strptime (date_fmt sp) (date_text sp d0) with
+    | None => Skip BadDate
+    | Some dt =>
+      match parse_amount (dec_sep sp) a0 with
+      | None => Skip BadAmount
+      | Some am0 =>
+        let am := apply_mode sp am0 in
+        if reject_nonfinite v && negb (fl_is_fin am) then Skip NonFinite else
+        if fl_is_zero am then Skip Zero else
+        Txn {| t_date := dt; t_desc := de; t_amount := am; t_source := source_of sp;
+               t_field := if is_nil (fields_of sp row) then None else Some (fields_of sp row);
+               t_loc := if is_nil (loc_text sp row) then extract_location de else Some (loc_text sp row);
+               t_credit := fl_is_neg am |}
+      end
+    end.
+
+  Lemma desc_and_caps_inl sp row de cs :
+    desc_and_caps sp row = inl (de, cs) -> description_of sp row = inl de /\ cs = fields_of sp row.
+  Proof.
+    unfold desc_and_caps, description_of, fields_of. destruct (desc sp) as [c ex|caps t].
+    - destruct (get row c) as [d|] eqn:E; cbn; [|discriminate].
+      destruct (captures row ex) as [x|] eqn:E2; cbn; [|discriminate].
+      intros [= <- <-]. apply get_inl in E as [-> _]. apply captures_inl in E2. now subst.
+    - destruct (captures row caps) as [x|] eqn:E2; cbn; [|discriminate].
+      apply captures_inl in E2; subst x.
+      destruct (fill t (caps_of row caps)) as [d|] eqn:E3; cbn; [|discriminate].
+      now intros [= <- <-].
+  Qed.
+
+  (* inversion: an accepted row was read the pure way *)
+  Lemma row_to_txn_Txn v sp row t :
+    row_to_txn v sp row = Txn t ->
+    (max_col sp < length row)%nat /\ exists de, description_of sp row = inl de /\ row_pure v sp row de = Txn t.
+  Proof.
+    unfold Model.row_to_txn. destruct (Nat.leb_spec (length row) (max_col sp)) as [|Hlen]; cbv iota; [discriminate|].
+    intros H. split; [exact Hlen|].
+    destruct (get row (date_col sp)) as [d0|] eqn:Ed; cbn in H; [|discriminate].
+    destruct (get row (amount_col sp)) as [a0|] eqn:Ea; cbn in H; [|discriminate].
+    destruct (desc_and_caps sp row) as [[de cs]|] eqn:Edc; cbn in H; [|discriminate].
+    apply get_inl in Ed as [-> _]. apply get_inl in Ea as [-> _].
+    apply desc_and_caps_inl in Edc as [Hde ->].
+    exists de. split; [exact Hde|]. unfold row_pure.
+    destruct (is_nil _ || is_nil de || is_nil _); [discriminate|].
+    destruct (strptime _ _) as [dt|]; [|discriminate].
+    destruct (parse_amount _ _) as [am0|]; [|discriminate].
+    destruct (reject_nonfinite v && _); [discriminate|].
+    destruct (fl_is_zero _); [discriminate|].
+    unfold location_of in H. unfold loc_text.
+    destruct (loc_col sp) as [c|] eqn:El.
+    - destruct (get row c) as [lc|] eqn:Eg; cbn in H; [|discriminate]. apply get_inl in Eg as [-> _]. exact H.
+    - cbn in H. exact H.
+  Qed.
+
+  (* totality: with every cell present and a well-formed template, the row is read the pure way *)
+  Lemma row_to_txn_total v sp row :
+    all_some row -> spec_wfb sp = true -> (max_col sp < length row)%nat ->
+    exists de, description_of sp row = inl de /\ row_to_txn v sp row = row_pure v sp row de.
+  Proof.
+    intros Hs Hwf Hlen.
+    assert (Hreq : forall c, In c (required_cols sp) -> get row c = inl (cell row c)).
+    { intros c Hc. apply get_total; [exact Hs|]. apply required_le_max in Hc. lia. }
+    assert (Hde : exists de, description_of sp row = inl de /\ desc_and_caps sp row = inl (de, fields_of sp row)).
+    { unfold description_of, desc_and_caps, fields_of, spec_wfb in *. destruct (desc sp) as [c ex|caps t] eqn:Ed.
+      - exists (cell row c). split; [reflexivity|].
+        rewrite (Hreq c (desc_col_req _ _ _ Ed)), (captures_total _ _ Hs). reflexivity.
+      - rewrite (captures_total _ _ Hs). cbn.
+        destruct (fill_total t (caps_of row caps)) as [d Hd]; [now rewrite caps_of_names|].
+        exists d. rewrite Hd. split; reflexivity. }
+    destruct Hde as [de [Hde Hdc]]. exists de. split; [exact Hde|].
+    unfold Model.row_to_txn. destruct (Nat.leb_spec (length row) (max_col sp)) as [|_]; cbv iota; [lia|].
+    rewrite (Hreq _ (date_col_req sp)), (Hreq _ (amount_col_req sp)), Hdc. cbn.
+    unfold row_pure.
+    destruct (is_nil _ || is_nil de || is_nil _); [reflexivity|].
+    destruct (strptime _ _) as [dt|]; [|reflexivity].
+    destruct (parse_amount _ _) as [am0|]; [|reflexivity].
+    destruct (reject_nonfinite v && _); [reflexivity|].
+    destruct (fl_is_zero _); [reflexivity|].
+    unfold location_of, loc_text. destruct (loc_col sp) as [c|] eqn:El.
+    - rewrite (Hreq c (loc_col_req _ _ El)). reflexivity.
+    - reflexivity.
+  Qed.
+
+  Lemma short_row_skipped v sp row : (length row <= max_col sp)%nat -> row_to_txn v sp row = Skip Short.
+  Proof. intros H. unfold Model.row_to_txn. destruct (Nat.leb_spec (length row) (max_col sp)); [reflexivity|lia]. Qed.
+
+  Lemma no_crash_row v sp row : all_some row -> spec_wfb sp = true -> row_to_txn v sp row <> Crash.
+  Proof.
+    intros Hs Hwf. destruct (Nat.leb_spec (length row) (max_col sp)) as [H|H].
+    - rewrite (short_row_skipped _ _ _ H). discriminate.
+    - destruct (row_to_txn_total v sp row Hs Hwf H) as [de [_ ->]]. unfold row_pure.
+      destruct (_ || _ || _); [discriminate|]. destruct (strptime _ _); [|discriminate].
+      destruct (parse_amount _ _); [|discriminate]. destruct (_ && _); [discriminate|].
+      destruct (fl_is_zero _); discriminate.
+  Qed.
+
+  (* ------------------------------------------------------------------------------------ C05: rows are independent *)
+  Definition accepted (v : variant) (sp : spec) (row : cells) : list txn :=
+    match row_to_txn v sp row with Txn t => [t] | _ => [] end.
+
+  Lemma accepted_at_most_one v sp row : (length (accepted v sp row) <= 1)%nat.
+  Proof. unfold accepted. destruct (row_to_txn v sp row); cbn; lia. Qed.
+
+  Lemma run_rows_flat v sp rows :
+    (forall r, In r rows -> row_to_txn v sp r <> Crash) ->
+    run_rows v sp rows = Rows (flat_map (accepted v sp) rows).
+  Proof.
+    induction rows as [|r rest IH]; intros H; cbn; [reflexivity|].
+    assert (Hr := H r (or_introl eq_refl)).
+    rewrite IH by (intros x Hx; apply H; now right).
+    unfold accepted. destruct (row_to_txn v sp r); cbn; [reflexivity|reflexivity|congruence].
+  Qed.
+
+  Lemma run_rows_crash v sp rows :
+    (exists r, In r rows /\ row_to_txn v sp r = Crash) -> run_rows v sp rows = Crashed.
+  Proof.
+    induction rows as [|r rest IH]; intros [x [Hin Hx]]; [destruct Hin|]. cbn.
+    destruct Hin as [->|Hin]; [now rewrite Hx|].
+    rewrite IH by (now exists x). destruct (row_to_txn v sp r); reflexivity.
+  Qed.
+
+  (* which inputs carry only present cells *)
+  Definition input_total (inp : input) : Prop :=
+    match inp with
+    | CsvIn _ => True
+    | RegexIn ls => forall ln g, In ln ls -> groups ln = Some g -> all_some g
+    end.
+
+  Lemma all_some_map_Some (r : list bs) : all_some (map Some r).
+  Proof. unfold all_some. apply Forall_forall. intros c Hc. apply in_map_iff in Hc as [x [<- _]]. discriminate. Qed.
+  Lemma norm_row_all_some v g : none_as_blank v = true -> all_some (norm_row v g).
+  Proof.
+    intros H. unfold norm_row. rewrite H. unfold all_some. apply Forall_forall. intros c Hc.
+    apply in_map_iff in Hc as [[x|] [<- _]]; discriminate.
+  Qed.
+  Lemma norm_row_id v g : all_some g -> norm_row v g = g.
+  Proof.
+    intros H. unfold norm_row. destruct (none_as_blank v); [|reflexivity].
+    induction g as [|[x|] r IH]; cbn; [reflexivity| |].
+    - f_equal. apply IH. now inversion H.
+    - inversion H; congruence.
+  Qed.
+
+  Lemma In_tl {A} (x : A) l : In x (tl l) -> In x l.
+  Proof. destruct l; cbn; tauto. Qed.
+
+  Lemma iter_rows_all_some v hdr inp :
+    none_as_blank v = true \/ input_total inp -> forall r, In r (iter_rows v hdr inp) -> all_some r.
+  Proof.
+    intros Hv r Hr. destruct inp as [recs|ls]; cbn in Hr.
+    - apply in_map_iff in Hr as [x [<- _]]. apply all_some_map_Some.
+    - apply in_flat_map in Hr as [ln [Hln Hr]].
+      destruct (is_nil (strip (raw ln))); [destruct Hr|].
+      destruct (groups ln) as [g|] eqn:Eg; [|destruct Hr]. destruct Hr as [<-|[]].
+      destruct Hv as [Hv|Hv]; [now apply norm_row_all_some|].
+      rewrite norm_row_id; apply (Hv ln g); try assumption; destruct hdr; [now apply In_tl|assumption].
+  Qed.
+
+  Lemma rows_independent v sp inp :
+    spec_wfb sp = true -> none_as_blank v = true \/ input_total inp ->
+    parse v sp inp = Rows (flat_map (accepted v sp) (iter_rows v (has_header sp) inp)).
+  Proof.
+    intros Hwf Hv. unfold Model.parse. apply run_rows_flat. intros r Hr.
+    apply no_crash_row; [|exact Hwf]. now apply (iter_rows_all_some v (has_header sp) inp).
+  Qed.
+
+  (* concatenation; a skipped row leaves the others as they are *)
+  Lemma run_rows_app v sp a b :
+    run_rows v sp (a ++ b) =
+    match run_rows v sp a, run_rows v sp b with Rows x, Rows y => Rows (x ++ y) | _, _ => Crashed end.
+  Proof.
+    induction a as [|r rest IH]; cbn.
+    - destruct (run_rows v sp b); reflexivity.
+    - destruct (row_to_txn v sp r); [|exact IH|reflexivity].
+      rewrite IH. destruct (run_rows v sp rest), (run_rows v sp b); reflexivity.
+  Qed.
+
+  Lemma malformed_row_skipped v sp a bad b w :
+    row_to_txn v sp bad = Skip w -> run_rows v sp (a ++ bad :: b) = run_rows v sp (a ++ b).
+  Proof.
+    intros H. rewrite !run_rows_app. cbn. now rewrite H.
+  Qed.
+
+  Lemma csv_file_split v sp (hdr : list (list bs)) a bad b w :
+    spec_wfb sp = true -> length hdr = (if has_header sp then 1 else 0)%nat ->
+    row_to_txn v sp (map Some bad) = Skip w ->
+    parse v sp (CsvIn (hdr ++ a ++ bad :: b)) = parse v sp (CsvIn (hdr ++ a ++ b)) /\
+    parse v sp (CsvIn (hdr ++ a ++ b)) =
+      Rows (flat_map (accepted v sp) (map (map Some) a) ++ flat_map (accepted v sp) (map (map Some) b)).
+  Proof.
+    intros Hwf Hh Hbad.
+    assert (Hit : forall rest, iter_rows v (has_header sp) (CsvIn (hdr ++ rest)) = map (map Some) rest).
+    { intros rest. cbn. destruct (has_header sp); destruct hdr as [|h [|h2 hs]]; cbn in Hh; try discriminate; reflexivity. }
+    split.
+    - unfold Model.parse. rewrite !Hit, !map_app. cbn. now apply malformed_row_skipped with (w := w).
+    - rewrite rows_independent by (auto; right; exact I). rewrite Hit, map_app, flat_map_app. reflexivity.
+  Qed.
+
+  (* ------------------------------------------------------------------------------------ C05: accepted <-> well-formed *)
+  Definition enough_columns (sp : spec) (row : cells) : Prop := (max_col sp < length row)%nat.
+  Definition date_parses (sp : spec) (row : cells) : Prop :=
+    cell row (date_col sp) <> [] /\ strptime (date_fmt sp) (date_text sp (cell row (date_col sp))) <> None.
+  Definition description_present (sp : spec) (row : cells) : Prop :=
+    exists de, description_of sp row = inl de /\ de <> [].
+  (* the amount cell denotes a number a; [fin] says whether it has to be finite *)
+  Definition amount_nonzero (fin : bool) (sp : spec) (row : cells) : Prop :=
+    exists a, parse_amount (dec_sep sp) (cell row (amount_col sp)) = Some a /\ fl_is_zero a = false
+              /\ (fin = true -> fl_is_fin a = true).
+  Definition wellformed (fin : bool) (sp : spec) (row : cells) : Prop :=
+    enough_columns sp row /\ date_parses sp row /\ description_present sp row /\ amount_nonzero fin sp row.
+
+  Lemma pure_Txn_iff v sp row de :
+    (exists t, row_pure v sp row de = Txn t) <->
+    (de <> [] /\ date_parses sp row /\ amount_nonzero (reject_nonfinite v) sp row).
+  Proof.
+    unfold row_pure, date_parses, amount_nonzero. split.
+    - intros [t H].
+      destruct (is_nil (cell row (date_col sp))) eqn:E1; [discriminate|].
+      destruct (is_nil de) eqn:E2; [discriminate|].
+      destruct (is_nil (cell row (amount_col sp))) eqn:E3; [discriminate|]. cbn in H.
+      destruct (strptime _ _) as [dt|] eqn:E4; [|discriminate].
+      destruct (parse_amount _ _) as [am0|] eqn:E5; [|discriminate].
+      destruct (reject_nonfinite v && _) eqn:E6; [discriminate|].
+      destruct (fl_is_zero _) eqn:E7; [discriminate|].
+      rewrite zero_mode in E7. rewrite fin_mode in E6.
+      apply is_nil_false in E1, E2. repeat split; try assumption; try congruence.
+      exists am0. repeat split; try assumption. intros Hv. rewrite Hv in E6. cbn in E6. now destruct (fl_is_fin am0).
+    - intros [Hde [[Hd Hs] [a [Ha [Hz Hf]]]]].
+      apply is_nil_false in Hde, Hd. rewrite Hde, Hd.
+      destruct (is_nil (cell row (amount_col sp))) eqn:E3.
+      { apply is_nil_true in E3. rewrite E3, parse_amount_nil in Ha. discriminate. }
+      cbn. destruct (strptime _ _) as [dt|]; [|congruence]. rewrite Ha.
+      rewrite zero_mode, fin_mode, Hz.
+      destruct (reject_nonfinite v) eqn:Ev; cbn; [rewrite (Hf eq_refl); cbn|]; eexists; reflexivity.
+  Qed.
+
+  Lemma accept_iff v sp row :
+    spec_wfb sp = true -> all_some row ->
+    ((exists t, row_to_txn v sp row = Txn t) <-> wellformed (reject_nonfinite v) sp row).
+  Proof.
+    intros Hwf Hs. unfold wellformed, enough_columns, description_present. split.
+    - intros [t H]. apply row_to_txn_Txn in H as [Hlen [de [Hde Hp]]].
+      assert (Hex : exists t, row_pure v sp row de = Txn t) by (now exists t).
+      apply pure_Txn_iff in Hex as [Hne [Hd Ha]]. repeat split; try assumption. now exists de.
+    - intros [Hlen [Hd [[de [Hde Hne]] Ha]]].
+      destruct (row_to_txn_total v sp row Hs Hwf Hlen) as [de' [Hde' ->]].
+      rewrite Hde in Hde'. injection Hde' as <-. apply pure_Txn_iff. tauto.
+  Qed.
+
+  (* ------------------------------------------------------------------------------------ C05: fields are the row's *)
+  Lemma fields_faithful v sp row t :
+    row_to_txn v sp row = Txn t ->
+    exists de am0,
+      description_of sp row = inl de /\
+      parse_amount (dec_sep sp) (cell row (amount_col sp)) = Some am0 /\
+      strptime (date_fmt sp) (date_text sp (cell row (date_col sp))) = Some (t_date t) /\
+      t_desc t = de /\
+      t_amount t = apply_mode sp am0 /\
+      t_source t = source_of sp /\
+      t_field t = (if is_nil (fields_of sp row) then None else Some (fields_of sp row)) /\
+      t_loc t = (if is_nil (loc_text sp row) then extract_location de else Some (loc_text sp row)) /\
+      t_credit t = fl_is_neg (t_amount t).
+  Proof.
+    intros H. apply row_to_txn_Txn in H as [_ [de [Hde Hp]]]. unfold row_pure in Hp.
+    destruct (_ || _ || _); [discriminate|].
+    destruct (strptime _ _) as [dt|] eqn:E4; [|discriminate].
+    destruct (parse_amount _ _) as [am0|] eqn:E5; [|discriminate].
+    destruct (_ && _); [discriminate|]. destruct (fl_is_zero _); [discriminate|].
+    injection Hp as <-. exists de, am0. cbn. repeat split; try assumption; reflexivity.
+  Qed.
+
+  (* in {description} mode the description is the cell's text without surrounding blanks *)
+  Lemma description_mode1 sp row c ex : desc sp = DescCol c ex -> description_of sp row = inl (cell row c).
+  Proof. intros H. unfold description_of. now rewrite H. Qed.
+  Lemma description_mode2 sp row caps t :
+    desc sp = Template caps t -> description_of sp row = fill t (caps_of row caps).
+  Proof. intros H. unfold description_of. now rewrite H. Qed.
+
+  (* ------------------------------------------------------------------------------------ C05: sign modes *)
+  Definition with_mode (sp : spec) (ng ab : bool) : spec :=
+    {| date_col := date_col sp; date_fmt := date_fmt sp; amount_col := amount_col sp; desc := desc sp;
+       loc_col := loc_col sp; has_header := has_header sp; negate := ng; absolute := ab;
+       spec_source := spec_source sp; source_name := source_name sp; dec_sep := dec_sep sp |}.
+  Definition mode_fn (ng ab : bool) (a : fl) : fl := if ab then fabs a else if ng then fneg a else a.
+  Definition retag (f : fl -> fl) (t : txn) : txn :=
+    {| t_date := t_date t; t_desc := t_desc t; t_amount := f (t_amount t); t_source := t_source t;
+       t_field := t_field t; t_loc := t_loc t; t_credit := fl_is_neg (f (t_amount t)) |}.
+  Definition map_res (f : fl -> fl) (r : res) : res := match r with Txn t => Txn (retag f t) | x => x end.
+
+  Lemma zero_mode_fn ng ab a : fl_is_zero (mode_fn ng ab a) = fl_is_zero a.
+  Proof. unfold mode_fn. destruct ab; [apply zero_fabs|]. destruct ng; [apply zero_fneg|reflexivity]. Qed.
+  Lemma fin_mode_fn ng ab a : fl_is_fin (mode_fn ng ab a) = fl_is_fin a.
+  Proof. unfold mode_fn. destruct ab; [apply fin_fabs|]. destruct ng; [apply fin_fneg|reflexivity]. Qed.
+
+  Lemma sign_modes v sp row ng ab :
+    row_to_txn v (with_mode sp ng ab) row = map_res (mode_fn ng ab) (row_to_txn v (with_mode sp false false) row).
+  Proof.
+    unfold Model.row_to_txn.
+    change (max_col (with_mode sp ng ab)) with (max_col (with_mode sp false false)).
+    destruct (Nat.leb (length row) (max_col (with_mode sp false false))); [reflexivity|].
+    change (date_col (with_mode sp ng ab)) with (date_col sp). change (date_col (with_mode sp false false)) with (date_col sp).
+    change (amount_col (with_mode sp ng ab)) with (amount_col sp). change (amount_col (with_mode sp false false)) with (amount_col sp).
+    destruct (get row (date_col sp)) as [d0|[]]; cbn; try reflexivity.
+    destruct (get row (amount_col sp)) as [a0|[]]; cbn; try reflexivity.
+    change (desc_and_caps (with_mode sp ng ab) row) with (desc_and_caps sp row).
+    change (desc_and_caps (with_mode sp false false) row) with (desc_and_caps sp row).
+    destruct (desc_and_caps sp row) as [[de cs]|[]]; cbn; try reflexivity.
+    destruct (is_nil d0 || is_nil de || is_nil a0); [reflexivity|].
+    change (date_text (with_mode sp ng ab) d0) with (date_text sp d0).
+    change (date_text (with_mode sp false false) d0) with (date_text sp d0).
+    destruct (strptime (date_fmt sp) (date_text sp d0)) as [dt|]; [|reflexivity].
+    destruct (parse_amount (dec_sep sp) a0) as [am0|]; [|reflexivity].
+    change (apply_mode (with_mode sp ng ab) am0) with (mode_fn ng ab am0).
+    change (apply_mode (with_mode sp false false) am0) with am0.
+    rewrite fin_mode_fn, zero_mode_fn.
+    destruct (reject_nonfinite v && negb (fl_is_fin am0)); [reflexivity|].
+    destruct (fl_is_zero am0); [reflexivity|].
+    change (location_of (with_mode sp ng ab) row de) with (location_of sp row de).
+    change (location_of (with_mode sp false false) row de) with (location_of sp row de).
+    destruct (location_of sp row de) as [lc|[]]; cbn; reflexivity.
+  Qed.
+End Rows.
